@@ -1,6 +1,6 @@
 (* Proofs for C16, part 3: from the decoded header list to the reported fields.  On RFC-conformant
    header lists (Spec.H2Spec.wf_request / wf_response) the model of parse_request / parse_response and
-   of the observation equals the specification's report, outside the known class k_lists. *)
+   of the observation equals the specification's report. *)
 From Coq Require Import List NArith ZArith Bool Lia ZifyBool ZifyN Arith.
 From Coq Require Import Strings.Byte.
 From HN Require Import Base.Bytes Model.H2Text Model.H2Frames Model.Hpack Model.H2Msg
@@ -471,24 +471,22 @@ Section Signature.
   Let common := if is_request then request_common_headers else response_common_headers.
 
   Lemma horder_eq l : names_ok l ->
-    existsb (fun ph => ci_in (fst (snd ph)) optional || ci_in (fst (snd ph)) skip) l = false ->
     map show_sig_header (headers_in_order is_request (map as_hhdr l))
     = map (sig_item optional skip) (map as_hhdr l).
   Proof.
-    intros Hn Hk. unfold headers_in_order. fold optional skip. rewrite map_map.
+    intros Hn. unfold headers_in_order. fold optional skip. rewrite map_map.
     apply map_ext_in. intros h Hin. apply in_map_iff in Hin. destruct Hin as (ph & <- & Hin).
     unfold names_ok in Hn. rewrite Forall_forall in Hn. specialize (Hn ph Hin).
-    assert (El : lower_cmp (h_name (as_hhdr ph)) = fst (snd ph)) by (apply lower_cmp_id; exact Hn).
+    assert (El : lower_cmp (h_name (as_hhdr ph)) = h_name (as_hhdr ph)) by (apply lower_cmp_id; exact Hn).
     rewrite El.
-    assert (Hf : ci_in (fst (snd ph)) optional || ci_in (fst (snd ph)) skip = false).
-    { destruct (ci_in (fst (snd ph)) optional || ci_in (fst (snd ph)) skip) eqn:E; [|reflexivity].
-      assert (existsb (fun ph => ci_in (fst (snd ph)) optional || ci_in (fst (snd ph)) skip) l = true)
-        by (apply existsb_exists; exists ph; auto). congruence. }
-    apply orb_false_iff in Hf. destruct Hf as [Ho Hs].
-    destruct (list_contains optional (fst (snd ph))) eqn:E1; [apply list_contains_ci in E1; congruence|].
-    destruct (list_contains skip (fst (snd ph))) eqn:E2; [apply list_contains_ci in E2; congruence|].
-    unfold sig_item, show_sig_header. rewrite as_hhdr_name, Ho, Hs. cbn [sh_optional sh_name sh_value app].
-    destruct (h_value (as_hhdr ph)); [reflexivity|apply app_nil_r].
+    change (list_any_ci optional (h_name (as_hhdr ph))) with (ci_in (h_name (as_hhdr ph)) optional).
+    change (list_any_ci skip (h_name (as_hhdr ph))) with (ci_in (h_name (as_hhdr ph)) skip).
+    unfold sig_item, show_sig_header.
+    destruct (ci_in (h_name (as_hhdr ph)) optional).
+    - cbn [sh_optional sh_name sh_value]. now rewrite app_nil_r.
+    - destruct (ci_in (h_name (as_hhdr ph)) skip); cbn [sh_optional sh_name sh_value app].
+      + apply app_nil_r.
+      + destruct (h_value (as_hhdr ph)); [reflexivity|apply app_nil_r].
   Qed.
 
   Lemma habsent_eq l : names_ok l ->
@@ -512,12 +510,11 @@ Section Signature.
   Qed.
 
   Lemma signature_eq l sw : names_ok l ->
-    existsb (fun ph => ci_in (fst (snd ph)) optional || ci_in (fst (snd ph)) skip) l = false ->
     show_signature (headers_in_order is_request (map as_hhdr l)) (headers_absent is_request (map as_hhdr l))
                    (traffic_classification sw)
     = spec_signature is_request (map as_hhdr l) sw.
   Proof.
-    intros Hn Hk. unfold show_signature, spec_signature. fold optional skip common.
+    intros Hn. unfold show_signature, spec_signature. fold optional skip common.
     rewrite horder_eq, habsent_eq by assumption. unfold traffic_classification. reflexivity.
   Qed.
 End Signature.
@@ -570,11 +567,11 @@ Lemma req_view_eq a b c d e f g h i j a' b' c' d' e' f' g' h' i' j' :
 Proof. intros; subst; reflexivity. Qed.
 
 Theorem request_fields hs :
-  wf_request hs = true -> k_lists true hs = false ->
+  wf_request hs = true ->
   exists v, spec_request hs = Some v /\
             pres_map observe_request (finish_request (BOk (absorb stream_empty (to_http_headers hs 0)))) = POk v.
 Proof.
-  intros Hwf Hk. unfold wf_request in Hwf. rewrite !andb_true_iff in Hwf.
+  intros Hwf. unfold wf_request in Hwf. rewrite !andb_true_iff in Hwf.
   destruct Hwf as [[[[[[[Hpf Hall] Um] Up] Ua] Us] Hsing] Hmp].
   unfold singletons in Hsing. rewrite !andb_true_iff in Hsing. destruct Hsing as [[[Sua Sal] Sref] _].
   rewrite forallb_forall in Hall.
@@ -661,23 +658,7 @@ Proof.
                                 (traffic_classification (map_get (bs "user-agent") (map as_hhdr plain)))
                  = spec_signature true (map as_hhdr plain)
                      (match value_of (bs "user-agent") (map snd plain) with Some v => nonempty v | None => None end)).
-  { rewrite Hua. apply (signature_eq true plain _ Hnames_plain).
-    apply not_true_is_false. intros Hex. apply existsb_exists in Hex. destruct Hex as (ph & Hin & Hci).
-    apply filter_In in Hin. destruct Hin as [Hin Hpl]. pose proof (Hreg_in ph Hin) as [Hhs Hrok].
-    apply filter_In in Hin. destruct Hin as [_ Hnp].
-    pose proof (existsb_false_in _ _ _ Hk Hhs) as Hf. cbv beta in Hf.
-    unfold nonpseudo in Hnp.
-    unfold is_plain, is_cookie, is_referer in Hpl. apply andb_true_iff in Hpl. destruct Hpl as [Hc Hr].
-    apply negb_true_iff in Hc, Hr.
-    assert (Hf' : negb (is_pseudo_name (fst (snd ph)))
-                  && negb (true && (name_is (bs "cookie") (snd ph) || name_is (bs "referer") (snd ph)))
-                  && (ci_in (fst (snd ph)) request_optional_headers || ci_in (fst (snd ph)) request_skip_value_headers) = false)
-      by exact Hf.
-    assert (A1 : negb (is_pseudo_name (fst (snd ph))) = true) by exact Hnp.
-    assert (A2 : name_is (bs "cookie") (snd ph) = false) by exact Hc.
-    assert (A3 : name_is (bs "referer") (snd ph) = false) by exact Hr.
-    assert (A4 : ci_in (fst (snd ph)) request_optional_headers || ci_in (fst (snd ph)) request_skip_value_headers = true) by exact Hci.
-    rewrite A1, A2, A3, A4 in Hf'. discriminate Hf'. }
+  { rewrite Hua. apply (signature_eq true plain _ Hnames_plain). }
   apply f_equal. apply req_view_eq; try reflexivity.
   - destruct (value_of (bs ":authority") hs); reflexivity.
   - destruct (value_of (bs ":scheme") hs); reflexivity.
@@ -710,11 +691,11 @@ Proof.
 Qed.
 
 Theorem response_fields hs :
-  wf_response hs = true -> k_lists false hs = false ->
+  wf_response hs = true ->
   exists w, spec_response hs = Some w /\
             pres_map observe_response (finish_response (BOk (absorb stream_empty (to_http_headers hs 0)))) = POk w.
 Proof.
-  intros Hwf Hk. unfold wf_response in Hwf. rewrite !andb_true_iff in Hwf.
+  intros Hwf. unfold wf_response in Hwf. rewrite !andb_true_iff in Hwf.
   destruct Hwf as [[[[Hpf Hall] Ust] Hsing] Hsv].
   unfold singletons in Hsing. rewrite !andb_true_iff in Hsing. destruct Hsing as [_ Sserver].
   rewrite forallb_forall in Hall.
@@ -780,16 +761,6 @@ Proof.
                                 (traffic_classification (map_get (bs "server") (map as_hhdr regular)))
                  = spec_signature false (map as_hhdr regular)
                      (match value_of (bs "server") (map snd regular) with Some v => nonempty v | None => None end)).
-  { rewrite Hserver. apply (signature_eq false regular _ Hnames).
-    apply not_true_is_false. intros Hex. apply existsb_exists in Hex. destruct Hex as (ph & Hin & Hci).
-    pose proof (Hreg_in ph Hin) as [Hhs _]. apply filter_In in Hin. destruct Hin as [_ Hnp].
-    pose proof (existsb_false_in _ _ _ Hk Hhs) as Hf. cbv beta in Hf. unfold nonpseudo in Hnp.
-    assert (Hf' : negb (is_pseudo_name (fst (snd ph)))
-                  && negb (false && (name_is (bs "cookie") (snd ph) || name_is (bs "referer") (snd ph)))
-                  && (ci_in (fst (snd ph)) response_optional_headers || ci_in (fst (snd ph)) response_skip_value_headers) = false)
-      by exact Hf.
-    assert (A1 : negb (is_pseudo_name (fst (snd ph))) = true) by exact Hnp.
-    assert (A4 : ci_in (fst (snd ph)) response_optional_headers || ci_in (fst (snd ph)) response_skip_value_headers = true) by exact Hci.
-    rewrite A1, A4 in Hf'. discriminate Hf'. }
+  { rewrite Hserver. apply (signature_eq false regular _ Hnames). }
   apply f_equal. apply resp_view_eq; try reflexivity. exact Hsig.
 Qed.
